@@ -18,8 +18,12 @@ RELEASES = 6  # releases 0..5
 
 NAMES = ["id", "name", "tag", "c", "x", "y", "z", "w", "n", "k", "v", "q", "extra", "data", "flag",
          "cnt", "a", "b", "d", "e", "g", "h", "m", "p", "r", "s", "t", "u"]
-CTOR_NAMES = ["Alpha", "Beta", "Gamma", "Delta", "Eps", "Zeta", "Eta", "Theta", "Iota", "Kappa",
+# names whose byte order differs from their case-insensitive order, and one with an underscore
+CTOR_NAMES = ["AZ", "Ab", "B_x", "Ba", "Alpha", "Beta", "Gamma", "Delta", "Eps", "Zeta", "Eta", "Theta", "Iota", "Kappa",
               "Lambda", "Mu", "Nu", "Xi", "Omi", "Pi", "Rho", "Sigma", "Tau", "Ups", "Phi", "Chi", "Psi", "Zz"]
+
+
+OPTION_SPELLINGS = ["Option", "Option", "Option", "std::option::Option", "core::option::Option"]
 
 
 class Ty:
@@ -33,9 +37,10 @@ class Ty:
         self.kind = kind  # plain | seq | pairs | bytes
         self.elem = elem
 
-    def opt(self):
+    def opt(self, spelling="Option"):
+        # the macro recognises optional fields by the spelling of their type
         inner = self
-        return Ty(f"Option<{self.rust}>", lambda r: "None" if r.random() < 0.4 else f"Some({inner.default(r)})",
+        return Ty(f"{spelling}<{self.rust}>", lambda r: "None" if r.random() < 0.4 else f"Some({inner.default(r)})",
                   optional=True, inner=self)
 
 
@@ -169,7 +174,7 @@ def random_leaf(rng, ctx):
         return bytes_ty(rng.choice(BYTE_CONTAINERS))
     t = rng.choice(LEAVES)()
     if rng.random() < 0.25:
-        t = t.opt()
+        t = t.opt(rng.choice(OPTION_SPELLINGS))
     return t
 
 
@@ -233,7 +238,7 @@ def evolve(rec, rng, ctx, allow_removal=True, allow_container=False):
             if not cands:
                 continue
             f = rng.choice(cands)
-            f.ty = f.ty.opt()
+            f.ty = f.ty.opt(rng.choice(OPTION_SPELLINGS))
             if f.default is not None:
                 f.default = f"Some({f.default})"
             rec.steps.append(("FieldMadeOptional", f.name))
